@@ -73,6 +73,13 @@ impl Sym for f64 {
 #[inline(always)]
 pub fn any<T: Sym>() -> T { T::sym() }
 
+/// Splits the assertion phase of a harness into `n` independently explored groups: a failed
+/// `assert!` ends its path (Rust semantics), so an assertion of one property placed after an
+/// assertion of another would never be evaluated on the inputs where the first one fails.
+/// Each group is checked on its own copy of the paths (one extra symbolic byte; the native
+/// replay follows the group recorded in the counterexample).
+pub fn group(n: u8) -> u8 { let g: u8 = any(); assume(g < n); g }
+
 /// Element-wise symbolic array (one `kani::any()` per element, so replay order is stable).
 pub fn any_arr<T: Sym + Copy + Default, const N: usize>() -> [T; N] {
     let mut a = [T::default(); N];
